@@ -27,6 +27,28 @@ def _names(node: ast.AST, name: str, ctx=None) -> List[ast.Name]:
     return [n for n in ast.walk(node) if isinstance(n, ast.Name) and n.id == name and (ctx is None or isinstance(n.ctx, ctx))]
 
 
+def _uses(node: ast.AST, name: str) -> List[ast.Name]:
+    """occurrences of the variable `name` of the enclosing function: a comprehension that binds the same name has a variable
+    of its own (only the iterable of its first generator is evaluated outside)"""
+    out: List[ast.Name] = []
+
+    def walk(n: ast.AST) -> None:
+        if isinstance(n, (ast.ListComp, ast.SetComp, ast.DictComp, ast.GeneratorExp)):
+            binds = any(isinstance(x, ast.Name) and x.id == name for g in n.generators for x in ast.walk(g.target))
+            if binds:
+                walk(n.generators[0].iter)
+                return
+        if isinstance(n, ast.Lambda) and any(a.arg == name for a in n.args.args + n.args.kwonlyargs + n.args.posonlyargs):
+            return
+        if isinstance(n, ast.Name) and n.id == name:
+            out.append(n)
+        for c in ast.iter_child_nodes(n):
+            walk(c)
+
+    walk(node)
+    return out
+
+
 def _assign_target_value(st: ast.stmt) -> Tuple[Optional[str], Optional[ast.expr]]:
     if isinstance(st, ast.Assign) and len(st.targets) == 1 and isinstance(st.targets[0], ast.Name):
         return st.targets[0].id, st.value
@@ -106,6 +128,7 @@ class _Fn:
         target: Optional[str] = None
         nxt: Optional[ast.Call] = None
         end: Optional[ast.AST] = None
+        second_next: Optional[ast.AST] = None
         body = list(w.body)
         extra_break: Optional[ast.expr] = None
         t = w.test
@@ -125,26 +148,45 @@ class _Fn:
                 rest = c.values[1:]
                 extra_break = rest[0] if len(rest) == 1 else ast.BoolOp(op=ast.Or(), values=rest)
             body = body[2:]
+        elif isinstance(t, ast.Compare) and len(t.ops) == 1 and isinstance(t.ops[0], ast.IsNot) and isinstance(t.left, ast.Name) and k >= 1 and len(body) >= 1:
+            # x = next(it, END); while x is not END: BODY; x = next(it, END)
+            n0, v0 = _assign_target_value(stmts[k - 1])
+            n1, v1 = _assign_target_value(body[-1])
+            if n0 != t.left.id or n1 != n0 or not _is_call(v0, "next", 2) or not _is_call(v1, "next", 2) or ast.unparse(v0) != ast.unparse(v1):
+                return None
+            if _own_level(body, (ast.Continue,)) or any(_names(b_, n0, ast.Store) for b_ in body[:-1]):
+                return None
+            target, nxt, end = n0, v0, t.comparators[0]  # type: ignore[assignment]
+            body = body[:-1]
+            # the priming statement goes, the advancing statement went with the body; both are the only uses of the iterator
+            second_next = v1
+            stmts = stmts[:k - 1] + [ast.Pass()] + stmts[k:]
         else:
             return None
         assert nxt is not None and end is not None and target is not None
         it = nxt.args[0]
-        if not isinstance(it, ast.Name) or not isinstance(nxt.args[1], ast.Name) or not isinstance(end, ast.Name) or nxt.args[1].id != end.id:
+        none_pair = isinstance(end, ast.Constant) and end.value is None and isinstance(nxt.args[1], ast.Constant) and nxt.args[1].value is None
+        if not isinstance(it, ast.Name) or not (none_pair or (isinstance(nxt.args[1], ast.Name) and isinstance(end, ast.Name) and nxt.args[1].id == end.id)):
             return None
-        sdef = self._sentinel(end, stmts[:k])
+        none_end = isinstance(end, ast.Constant) and end.value is None and isinstance(nxt.args[1], ast.Constant) and nxt.args[1].value is None
+        sdef = ast.Pass() if none_end else self._sentinel(end, stmts[:k])
         if sdef is None:
             return None
         idefs = [i for i, s in enumerate(stmts[:k]) if _assign_target_value(s)[0] == it.id]
         if len(idefs) != 1 or not _is_call(_assign_target_value(stmts[idefs[0]])[1], "iter", 1):
             return None
         src = _assign_target_value(stmts[idefs[0]])[1].args[0]  # type: ignore[union-attr]
-        if not self._between_ok(stmts, idefs[0], k) or not (_simple(src) or idefs[0] == k - 1 or all(_is_call(_assign_target_value(s)[1], "object", 0) for s in stmts[idefs[0] + 1:k])):
+        if none_end and not (isinstance(src, ast.Call) and isinstance(src.func, ast.Name) and src.func.id == "range"):
+            return None  # None as the end marker is exact only where no element can be None: a range of numbers
+        if not self._between_ok(stmts, idefs[0], k) or not (_simple(src) or idefs[0] == k - 1 or (isinstance(src, ast.Call) and isinstance(src.func, ast.Name) and src.func.id == "range") or all(_is_call(_assign_target_value(s)[1], "object", 0) for s in stmts[idefs[0] + 1:k])):
             return None
         # the iterator and the sentinel serve this loop only
-        if not self._only_uses(it.id, [stmts[idefs[0]], nxt]):
+        if not self._only_uses(it.id, [stmts[idefs[0]], nxt] + ([second_next] if second_next is not None else [])):
             return None
         # the sentinel is only ever handed to next() as the default and compared by identity (several loops may share it)
         ok_ids = set()
+        if none_end:
+            end = ast.Name(id="<none>", ctx=ast.Load())
         for n in ast.walk(self.fn):
             if _is_call(n, "next", 2) and isinstance(n.args[1], ast.Name):
                 ok_ids.add(id(n.args[1]))
@@ -160,6 +202,8 @@ class _Fn:
             body = [ast.Pass()]
         loop = ast.For(target=ast.Name(id=target, ctx=ast.Store()), iter=src, body=body, orelse=[], type_comment=None)
         ast.copy_location(loop, w)
+        if not any(_names(s_, target) for s_ in stmts[k + 1:]):
+            loop = _fuse_unpack(loop)
         out = [s for i, s in enumerate(stmts[:k]) if i != idefs[0]] + [loop] + stmts[k + 1:]
         return [ast.fix_missing_locations(s) for s in out]
 
@@ -315,6 +359,28 @@ class _Fn:
         out = [s for j, s in enumerate(stmts[:k]) if j != fdefs[0]] + [loop] + stmts[k + 1:]
         return [ast.fix_missing_locations(s) for s in out]
 
+    # -------------------------------------------------------------- test at the head
+    def _head_break(self, stmts: List[ast.stmt], k: int) -> Optional[List[ast.stmt]]:
+        """while True: if T: break; REST   ->   while not T: REST"""
+        w = stmts[k]
+        assert isinstance(w, ast.While)
+        if w.orelse or not (isinstance(w.test, ast.Constant) and w.test.value is True) or len(w.body) < 2:
+            return None
+        h = w.body[0]
+        if not (isinstance(h, ast.If) and not h.orelse and len(h.body) == 1 and isinstance(h.body[0], ast.Break)):
+            return None
+        t = h.test
+        if isinstance(t, ast.UnaryOp) and isinstance(t.op, ast.Not):
+            nt: ast.expr = t.operand
+        elif isinstance(t, ast.Compare) and len(t.ops) == 1 and isinstance(t.ops[0], (ast.NotIn, ast.In, ast.Is, ast.IsNot)):
+            flip = {ast.NotIn: ast.In, ast.In: ast.NotIn, ast.Is: ast.IsNot, ast.IsNot: ast.Is}[type(t.ops[0])]
+            nt = ast.Compare(left=t.left, ops=[flip()], comparators=t.comparators)
+        else:
+            nt = ast.UnaryOp(op=ast.Not(), operand=t)
+        loop = ast.While(test=nt, body=w.body[1:], orelse=[])
+        ast.copy_location(loop, w)
+        return [ast.fix_missing_locations(s) for s in stmts[:k] + [loop] + stmts[k + 1:]]
+
     # -------------------------------------------------------------- driver
     def block(self, stmts: List[ast.stmt]) -> List[ast.stmt]:
         progress = True
@@ -323,7 +389,7 @@ class _Fn:
             for k, s in enumerate(stmts):
                 if not isinstance(s, ast.While):
                     continue
-                for rw in (self._iterator_loop, self._index_loop, self._flag_loop):
+                for rw in (self._iterator_loop, self._index_loop, self._flag_loop, self._head_break):
                     try:
                         r = rw(stmts, k)
                     except (AttributeError, IndexError, TypeError):
@@ -345,6 +411,19 @@ class _Fn:
             for h in getattr(s, "handlers", []) or []:
                 h.body = self.block(h.body)
         return stmts
+
+
+def _fuse_unpack(loop: ast.For) -> ast.For:
+    """for e in xs: a, b = e; BODY  ->  for a, b in xs: BODY   (e used for nothing else)"""
+    if isinstance(loop.target, ast.Name) and loop.body and isinstance(loop.body[0], ast.Assign) and len(loop.body[0].targets) == 1 \
+            and isinstance(loop.body[0].targets[0], (ast.Tuple, ast.List)) and isinstance(loop.body[0].value, ast.Name) and loop.body[0].value.id == loop.target.id \
+            and all(isinstance(x, ast.Name) for x in loop.body[0].targets[0].elts):
+        e = loop.target.id
+        rest = loop.body[1:]
+        if not any(_names(s_, e) for s_ in rest):
+            loop.target = ast.Tuple(elts=[ast.Name(id=x.id, ctx=ast.Store()) for x in loop.body[0].targets[0].elts], ctx=ast.Store())
+            loop.body = rest or [ast.Pass()]
+    return loop
 
 
 class _Replace(ast.NodeTransformer):
@@ -413,6 +492,399 @@ class _MinMax(ast.NodeTransformer):
         return ast.fix_missing_locations(ast.copy_location(ast.Call(func=ast.Name(id=fn, ctx=ast.Load()), args=args, keywords=[]), node))
 
 
+class _Clamp(ast.NodeTransformer):
+    """if a > x: x = a  ->  x = max(x, a);  if a < x: x = a  ->  x = min(x, a)   (x a local name, a plain)"""
+
+    def __init__(self) -> None:
+        self.n = 0
+
+    def visit_If(self, node: ast.If) -> ast.AST:
+        self.generic_visit(node)
+        if node.orelse or len(node.body) != 1:
+            return node
+        st = node.body[0]
+        if not (isinstance(st, ast.Assign) and len(st.targets) == 1 and _simple(st.targets[0])):
+            return node
+        tnode, val = st.targets[0], st.value
+        tgt = ast.unparse(tnode)
+        t = node.test
+        neg = False
+        if isinstance(t, ast.UnaryOp) and isinstance(t.op, ast.Not):
+            t, neg = t.operand, True
+        if not (isinstance(t, ast.Compare) and len(t.ops) == 1 and isinstance(t.ops[0], (ast.Lt, ast.LtE, ast.Gt, ast.GtE))):
+            return node
+        l, r = t.left, t.comparators[0]
+        uv = ast.unparse(val)
+        if not _MinMax._plain(val) or uv == tgt:
+            return node
+        if ast.unparse(l) == tgt and ast.unparse(r) == uv:
+            x_left = True
+        elif ast.unparse(r) == tgt and ast.unparse(l) == uv:
+            x_left = False
+        else:
+            return node
+        less = isinstance(t.ops[0], (ast.Lt, ast.LtE)) != neg
+        # x < a -> x = a : max;  x > a -> x = a : min;  a < x -> x = a : min;  a > x -> x = a : max
+        fn = "max" if less == x_left else "min"
+        self.n += 1
+        load = copy.deepcopy(tnode)
+        for sub in ast.walk(load):
+            if hasattr(sub, "ctx"):
+                sub.ctx = ast.Load()
+        call = ast.Call(func=ast.Name(id=fn, ctx=ast.Load()), args=[load, val], keywords=[])
+        new = ast.Assign(targets=[tnode], value=call, type_comment=None)
+        return ast.fix_missing_locations(ast.copy_location(new, node))
+
+
+def _search_loops(stmts: List[ast.stmt], fn: ast.AST) -> Tuple[List[ast.stmt], int]:
+    """for t in XS: if t is m or t == m: break  else: ORELSE   ->   if m not in XS: ORELSE"""
+    n = 0
+    out: List[ast.stmt] = []
+    for k, s in enumerate(stmts):
+        for fld in ("body", "orelse", "finalbody"):
+            sub = getattr(s, fld, None)
+            if isinstance(sub, list) and sub and isinstance(sub[0], ast.stmt) and not isinstance(s, (ast.FunctionDef, ast.AsyncFunctionDef, ast.ClassDef)):
+                r, m = _search_loops(sub, fn)
+                setattr(s, fld, r)
+                n += m
+        # for m in XS: if not P(m): return R     ->     if not all(P(m) for m in XS): return R      (m dead afterwards)
+        if isinstance(s, ast.For) and not s.orelse and isinstance(s.target, ast.Name) and len(s.body) == 1 and isinstance(s.body[0], ast.If) and not s.body[0].orelse \
+                and len(s.body[0].body) == 1 and isinstance(s.body[0].body[0], ast.Return) and (s.body[0].body[0].value is None or isinstance(s.body[0].body[0].value, (ast.Name, ast.Constant))):
+            t = s.target.id
+            c = s.body[0].test
+            pos: ast.expr = c.operand if isinstance(c, ast.UnaryOp) and isinstance(c.op, ast.Not) else ast.UnaryOp(op=ast.Not(), operand=c)
+            used_after = any(_uses(x, t) for x in stmts[k + 1:])
+            only_here = len(_uses(fn, t)) == len(_uses(s, t))
+            if not used_after and only_here and not any(isinstance(x, (ast.NamedExpr, ast.Yield, ast.YieldFrom, ast.Await)) for x in ast.walk(c)):
+                gen = ast.GeneratorExp(elt=pos, generators=[ast.comprehension(target=ast.Name(id=t, ctx=ast.Store()), iter=s.iter, ifs=[], is_async=0)])
+                test = ast.UnaryOp(op=ast.Not(), operand=ast.Call(func=ast.Name(id="all", ctx=ast.Load()), args=[gen], keywords=[]))
+                new = ast.If(test=test, body=s.body[0].body, orelse=[])
+                out.append(ast.fix_missing_locations(ast.copy_location(new, s)))
+                n += 1
+                continue
+        if isinstance(s, ast.For) and s.orelse and isinstance(s.target, ast.Name) and len(s.body) == 1 and isinstance(s.body[0], ast.If) and not s.body[0].orelse \
+                and len(s.body[0].body) == 1 and isinstance(s.body[0].body[0], ast.Break):
+            t = s.target.id
+            c = s.body[0].test
+            parts = c.values if isinstance(c, ast.BoolOp) and isinstance(c.op, ast.Or) else [c]
+            needle = None
+            good = True
+            for part in parts:
+                if not (isinstance(part, ast.Compare) and len(part.ops) == 1 and isinstance(part.ops[0], (ast.Is, ast.Eq))):
+                    good = False
+                    break
+                a, b = part.left, part.comparators[0]
+                other = b if isinstance(a, ast.Name) and a.id == t else (a if isinstance(b, ast.Name) and b.id == t else None)
+                if other is None or not _simple(other) or (needle is not None and ast.unparse(other) != needle):
+                    good = False
+                    break
+                needle = ast.unparse(other)
+            has_eq = any(isinstance(part, ast.Compare) and isinstance(part.ops[0], ast.Eq) for part in parts)
+            used_after = any(_uses(x, t) for x in stmts[k + 1:])
+            only_here = len(_uses(fn, t)) == len(_uses(s, t))
+            if good and has_eq and needle is not None and not used_after and only_here:
+                test = ast.Compare(left=ast.parse(needle, mode="eval").body, ops=[ast.NotIn()], comparators=[s.iter])
+                new = ast.If(test=test, body=s.orelse, orelse=[])
+                out.append(ast.fix_missing_locations(ast.copy_location(new, s)))
+                n += 1
+                continue
+        out.append(s)
+    return out, n
+
+
+def _append_loops(stmts: List[ast.stmt], fn: ast.AST) -> Tuple[List[ast.stmt], int]:
+    """xs = []; for t in IT: xs.append(E)   ->   xs = [E for t in IT]     (E arithmetic on names, no calls; t dead after the loop)"""
+    n = 0
+    for s in stmts:
+        for fld in ("body", "orelse", "finalbody"):
+            sub = getattr(s, fld, None)
+            if isinstance(sub, list) and sub and isinstance(sub[0], ast.stmt) and not isinstance(s, (ast.FunctionDef, ast.AsyncFunctionDef, ast.ClassDef)):
+                r, m = _append_loops(sub, fn)
+                setattr(s, fld, r)
+                n += m
+    out: List[ast.stmt] = []
+    k = 0
+    while k < len(stmts):
+        s = stmts[k]
+        nm, val = _assign_target_value(s)
+        nxt = stmts[k + 1] if k + 1 < len(stmts) else None
+        cond: Optional[ast.expr] = None
+        if nm is not None and isinstance(nxt, ast.For) and len(nxt.body) == 1 and isinstance(nxt.body[0], ast.If) and not nxt.body[0].orelse and len(nxt.body[0].body) == 1 \
+                and not any(isinstance(x, (ast.NamedExpr, ast.Yield, ast.YieldFrom, ast.Await, ast.Lambda)) for x in ast.walk(nxt.body[0].test)) and not _names(nxt.body[0].test, nm):
+            # for t in IT: if C: xs.append(E)   ->   [E for t in IT if C]
+            cond = nxt.body[0].test
+            nxt = ast.For(target=nxt.target, iter=nxt.iter, body=nxt.body[0].body, orelse=nxt.orelse, type_comment=None)
+        if nm is not None and isinstance(val, ast.List) and not val.elts and isinstance(nxt, ast.For) and not nxt.orelse and isinstance(nxt.target, ast.Name) and len(nxt.body) == 1 \
+                and isinstance(nxt.body[0], ast.Expr) and isinstance(nxt.body[0].value, ast.Call) and isinstance(nxt.body[0].value.func, ast.Attribute) \
+                and nxt.body[0].value.func.attr == "append" and isinstance(nxt.body[0].value.func.value, ast.Name) and nxt.body[0].value.func.value.id == nm \
+                and len(nxt.body[0].value.args) == 1 and not nxt.body[0].value.keywords:
+            elt = nxt.body[0].value.args[0]
+            t = nxt.target.id
+            pure = not any(isinstance(x, (ast.Call, ast.Await, ast.Yield, ast.YieldFrom, ast.NamedExpr, ast.Lambda)) for x in ast.walk(elt))
+            dead = not any(_uses(x, t) for x in stmts[k + 2:]) and len(_uses(fn, t)) == len(_uses(stmts[k + 1], t))
+            local_gen = isinstance(nxt.iter, ast.Call) and isinstance(nxt.iter.func, ast.Name) and nxt.iter.func.id not in ("range", "enumerate", "zip", "reversed", "sorted", "list", "tuple", "iter", "filter", "map")
+            if pure and dead and not local_gen and not _names(elt, nm) and not _names(nxt.iter, nm):
+                comp = ast.ListComp(elt=elt, generators=[ast.comprehension(target=ast.Name(id=t, ctx=ast.Store()), iter=nxt.iter, ifs=[cond] if cond is not None else [], is_async=0)])
+                if isinstance(s, ast.AnnAssign):
+                    new: ast.stmt = ast.AnnAssign(target=s.target, annotation=s.annotation, value=comp, simple=s.simple)
+                else:
+                    new = ast.Assign(targets=s.targets, value=comp, type_comment=None)  # type: ignore[attr-defined]
+                out.append(ast.fix_missing_locations(ast.copy_location(new, s)))
+                n += 1
+                k += 2
+                continue
+        out.append(s)
+        k += 1
+    return out, n
+
+
+def _dict_typed(e: ast.AST, fn: ast.AST, tree: ast.Module) -> bool:
+    """e is a name or self.attr that is annotated / initialised as a dict somewhere in its scope"""
+    def dicty(ann: Optional[ast.AST], val: Optional[ast.AST]) -> bool:
+        a = ast.unparse(ann) if ann is not None else ""
+        if a.startswith(("Dict[", "dict[", "typing.Dict[", "OrderedDict", "DefaultDict", "MutableMapping", "Mapping")) or a in ("Dict", "dict"):
+            return True
+        return isinstance(val, (ast.Dict, ast.DictComp)) or _is_call(val, "dict", 0)
+
+    if isinstance(e, ast.Name):
+        for n in ast.walk(fn):
+            if isinstance(n, ast.AnnAssign) and isinstance(n.target, ast.Name) and n.target.id == e.id and dicty(n.annotation, n.value):
+                return True
+            if isinstance(n, ast.arg) and n.arg == e.id and dicty(n.annotation, None):
+                return True
+        return False
+    if isinstance(e, ast.Attribute) and isinstance(e.value, ast.Name) and e.value.id == "self":
+        for n in ast.walk(tree):
+            if isinstance(n, ast.AnnAssign) and dicty(n.annotation, n.value):
+                if isinstance(n.target, ast.Attribute) and isinstance(n.target.value, ast.Name) and n.target.value.id == "self" and n.target.attr == e.attr:
+                    return True
+                if isinstance(n.target, ast.Name) and n.target.id == e.attr:
+                    return True
+        return False
+    return False
+
+
+def _key_loops(stmts: List[ast.stmt], fn: ast.AST, tree: ast.Module) -> int:
+    """for k in D: v = D[k]; BODY   ->   for k, v in D.items(): BODY   (for v in D.values() when k is used for nothing else)"""
+    n = 0
+    for k_, s in enumerate(stmts):
+        for fld in ("body", "orelse", "finalbody"):
+            sub = getattr(s, fld, None)
+            if isinstance(sub, list) and sub and isinstance(sub[0], ast.stmt) and not isinstance(s, (ast.FunctionDef, ast.AsyncFunctionDef, ast.ClassDef)):
+                n += _key_loops(sub, fn, tree)
+        if not (isinstance(s, ast.For) and isinstance(s.target, ast.Name) and _simple(s.iter) and s.body and _dict_typed(s.iter, fn, tree)):
+            continue
+        key_, d = s.target.id, ast.unparse(s.iter)
+        vn, vv = _assign_target_value(s.body[0])
+        if vn is None or not (isinstance(vv, ast.Subscript) and ast.unparse(vv.value) == d and isinstance(vv.slice, ast.Name) and vv.slice.id == key_):
+            # the look-ups sit deeper in the body: D[k] anywhere in it is the value that goes with k
+            reads = [x for b_ in s.body for x in ast.walk(b_) if isinstance(x, ast.Subscript) and isinstance(x.ctx, ast.Load) and ast.unparse(x.value) == d and isinstance(x.slice, ast.Name) and x.slice.id == key_]
+            written = any(isinstance(x, ast.Subscript) and isinstance(x.ctx, (ast.Store, ast.Del)) and ast.unparse(x.value) == d for b_ in s.body for x in ast.walk(b_)) \
+                or any(isinstance(x, ast.Call) and isinstance(x.func, ast.Attribute) and ast.unparse(x.func.value) == d and x.func.attr in ("pop", "popitem", "clear", "update", "setdefault", "__setitem__", "__delitem__") for b_ in s.body for x in ast.walk(b_))
+            if not reads or written or any(_names(x, key_, ast.Store) for x in s.body):
+                continue
+            vname = f"_{key_}_value"
+            rep = _Replace({id(x): vname for x in reads})
+            s.body = [rep.visit(b_) for b_ in s.body]
+            s.target = ast.Tuple(elts=[ast.Name(id=key_, ctx=ast.Store()), ast.Name(id=vname, ctx=ast.Store())], ctx=ast.Store())
+            s.iter = ast.Call(func=ast.Attribute(value=s.iter, attr="items", ctx=ast.Load()), args=[], keywords=[])
+            b0 = s.body[0]
+            if isinstance(b0, ast.Assign) and len(b0.targets) == 1 and isinstance(b0.targets[0], ast.Tuple) and isinstance(b0.value, ast.Name) and b0.value.id == key_ \
+                    and all(isinstance(x, ast.Name) for x in b0.targets[0].elts) and not any(_names(x, key_) for x in s.body[1:]) and not any(_names(x, key_) for x in stmts[k_ + 1:]):
+                s.target.elts[0] = ast.Tuple(elts=[ast.Name(id=x.id, ctx=ast.Store()) for x in b0.targets[0].elts], ctx=ast.Store())
+                s.body = s.body[1:] or [ast.Pass()]
+            ast.fix_missing_locations(s)
+            n += 1
+            continue
+        rest = s.body[1:]
+        # the dict itself is not written in the loop, the key is not rebound, the value name is not the key
+        if vn == key_ or any(_names(x, key_, ast.Store) for x in rest) or any(isinstance(x, ast.Subscript) and isinstance(x.ctx, (ast.Store, ast.Del)) and ast.unparse(x.value) == d for r_ in rest for x in ast.walk(r_)):
+            continue
+        key_used = any(_names(x, key_) for x in rest) or any(_names(x, key_) for x in stmts[k_ + 1:])
+        if key_used:
+            s.target = ast.Tuple(elts=[ast.Name(id=key_, ctx=ast.Store()), ast.Name(id=vn, ctx=ast.Store())], ctx=ast.Store())
+            s.iter = ast.Call(func=ast.Attribute(value=s.iter, attr="items", ctx=ast.Load()), args=[], keywords=[])
+            # for k, v in D.items(): a, b = k; BODY  ->  for (a, b), v in D.items(): BODY
+            if rest and isinstance(rest[0], ast.Assign) and len(rest[0].targets) == 1 and isinstance(rest[0].targets[0], ast.Tuple) and isinstance(rest[0].value, ast.Name) and rest[0].value.id == key_ \
+                    and all(isinstance(x, ast.Name) for x in rest[0].targets[0].elts) and not any(_names(x, key_) for x in rest[1:]) and not any(_names(x, key_) for x in stmts[k_ + 1:]):
+                s.target.elts[0] = ast.Tuple(elts=[ast.Name(id=x.id, ctx=ast.Store()) for x in rest[0].targets[0].elts], ctx=ast.Store())
+                rest = rest[1:]
+        else:
+            s.target = ast.Name(id=vn, ctx=ast.Store())
+            s.iter = ast.Call(func=ast.Attribute(value=s.iter, attr="values", ctx=ast.Load()), args=[], keywords=[])
+        s.body = rest or [ast.Pass()]
+        ast.fix_missing_locations(s)
+        n += 1
+    return n
+
+
+def _module_constants(tree: ast.Module) -> Dict[str, object]:
+    """module-level names bound once to a string / number / tuple of such, folded (`"a" + _SUFFIX`)"""
+    env: Dict[str, object] = {}
+    stores: Dict[str, int] = {}
+    for n in ast.walk(tree):
+        if isinstance(n, ast.Name) and isinstance(n.ctx, ast.Store):
+            stores[n.id] = stores.get(n.id, 0) + 1
+
+    def fold(e: ast.AST) -> object:
+        if isinstance(e, ast.Constant) and isinstance(e.value, (str, int, float)) and not isinstance(e.value, bool):
+            return e.value
+        if isinstance(e, ast.Name) and e.id in env:
+            return env[e.id]
+        if isinstance(e, ast.BinOp) and isinstance(e.op, ast.Add):
+            l, r = fold(e.left), fold(e.right)
+            if isinstance(l, str) and isinstance(r, str):
+                return l + r
+        if isinstance(e, ast.Tuple):
+            return tuple(fold(x) for x in e.elts)
+        raise ValueError
+
+    for st in tree.body:
+        nm, val = _assign_target_value(st)
+        if nm is None or val is None or stores.get(nm, 0) != 1:
+            continue
+        try:
+            env[nm] = fold(val)
+        except ValueError:
+            continue
+    return env
+
+
+class _ConstComp(ast.NodeTransformer):
+    """{k: E for k in CONST_TUPLE}  ->  {"a": E, "b": E, ...}   (E does not mention k and builds a new value each time)"""
+
+    def __init__(self, env: Dict[str, object]):
+        self.env = env
+        self.n = 0
+
+    def visit_DictComp(self, node: ast.DictComp) -> ast.AST:
+        self.generic_visit(node)
+        if len(node.generators) != 1:
+            return node
+        g = node.generators[0]
+        if g.ifs or g.is_async or not isinstance(g.target, ast.Name) or not isinstance(g.iter, ast.Name) or g.iter.id not in self.env:
+            return node
+        vals = self.env[g.iter.id]
+        if not isinstance(vals, tuple) or not vals or len(vals) > 40 or not all(isinstance(v, (str, int, float)) for v in vals) or len(set(vals)) != len(vals):
+            return node
+        if not (isinstance(node.key, ast.Name) and node.key.id == g.target.id) or _names(node.value, g.target.id):
+            return node
+        if any(isinstance(x, (ast.Call, ast.NamedExpr, ast.Await, ast.Yield, ast.YieldFrom)) for x in ast.walk(node.value)) and not (isinstance(node.value, ast.Call) and not node.value.args and not node.value.keywords and isinstance(node.value.func, ast.Name) and node.value.func.id in ("dict", "list", "set")):
+            return node
+        self.n += 1
+        new = ast.Dict(keys=[ast.Constant(value=v) for v in vals], values=[copy.deepcopy(node.value) for _ in vals])
+        return ast.fix_missing_locations(ast.copy_location(new, node))
+
+
+def _comp_key_lookups(tree: ast.Module) -> int:
+    """[... D[k] ... for k in D ...]   ->   [... v ... for k, v in D.items() ...]   (D annotated / initialised as a dict)"""
+    n = 0
+    fns = [x for x in ast.walk(tree) if isinstance(x, (ast.FunctionDef, ast.AsyncFunctionDef))]
+    for fn in fns:
+        for c in [x for x in ast.walk(fn) if isinstance(x, (ast.ListComp, ast.SetComp, ast.GeneratorExp, ast.DictComp))]:
+            for gi, g in enumerate(c.generators):
+                if not (isinstance(g.target, ast.Name) and _simple(g.iter) and _dict_typed(g.iter, fn, tree)):
+                    continue
+                k_, d = g.target.id, ast.unparse(g.iter)
+                parts: List[ast.AST] = list(g.ifs) + [x for g2 in c.generators[gi + 1:] for x in [g2.iter] + list(g2.ifs)]
+                parts += [c.key, c.value] if isinstance(c, ast.DictComp) else [c.elt]
+                reads = [x for p_ in parts for x in ast.walk(p_) if isinstance(x, ast.Subscript) and isinstance(x.ctx, ast.Load) and ast.unparse(x.value) == d and isinstance(x.slice, ast.Name) and x.slice.id == k_]
+                if not reads:
+                    continue
+                vname = f"_{k_}_value"
+                rep = _Replace({id(x): vname for x in reads})
+                g.ifs = [rep.visit(x) for x in g.ifs]
+                for g2 in c.generators[gi + 1:]:
+                    g2.iter = rep.visit(g2.iter)
+                    g2.ifs = [rep.visit(x) for x in g2.ifs]
+                if isinstance(c, ast.DictComp):
+                    c.key, c.value = rep.visit(c.key), rep.visit(c.value)
+                else:
+                    c.elt = rep.visit(c.elt)
+                g.target = ast.Tuple(elts=[ast.Name(id=k_, ctx=ast.Store()), ast.Name(id=vname, ctx=ast.Store())], ctx=ast.Store())
+                g.iter = ast.Call(func=ast.Attribute(value=g.iter, attr="items", ctx=ast.Load()), args=[], keywords=[])
+                ast.fix_missing_locations(c)
+                n += 1
+    return n
+
+
+def _boolean(e: ast.AST) -> bool:
+    """an expression whose value is True or False whatever its operands are"""
+    if isinstance(e, ast.BoolOp):
+        return all(_boolean(v) for v in e.values)
+    if isinstance(e, ast.UnaryOp) and isinstance(e.op, ast.Not):
+        return True
+    if isinstance(e, ast.Compare):
+        return all(isinstance(o, (ast.Is, ast.IsNot, ast.In, ast.NotIn)) for o in e.ops) or all(
+            isinstance(x, (ast.Name, ast.Attribute, ast.Constant)) for x in [e.left] + list(e.comparators))
+    if isinstance(e, ast.Call) and isinstance(e.func, ast.Name) and e.func.id in ("isinstance", "issubclass", "callable", "hasattr", "bool"):
+        return True
+    return isinstance(e, ast.Constant) and isinstance(e.value, bool)
+
+
+class _BoolReturn(ast.NodeTransformer):
+    """return <and/or/not over tests>   ->   if <...>: return True  else: return False   (the value is a bool either way)"""
+
+    def __init__(self) -> None:
+        self.n = 0
+
+    def visit_Return(self, node: ast.Return) -> ast.AST:
+        v = node.value
+        if v is not None and (isinstance(v, ast.BoolOp) or (isinstance(v, ast.UnaryOp) and isinstance(v.op, ast.Not) and isinstance(v.operand, ast.BoolOp))) and _boolean(v):
+            self.n += 1
+            new = ast.If(test=v, body=[ast.Return(value=ast.Constant(value=True))], orelse=[ast.Return(value=ast.Constant(value=False))])
+            return ast.fix_missing_locations(ast.copy_location(new, node))
+        return node
+
+    def visit_Lambda(self, node: ast.Lambda) -> ast.AST:
+        return node
+
+
+class _ListExtend(ast.NodeTransformer):
+    """xs += E  ->  xs.extend(E)   for a local xs that is only ever bound to a new list"""
+
+    def __init__(self) -> None:
+        self.n = 0
+
+    def visit_FunctionDef(self, fn: ast.FunctionDef) -> ast.AST:
+        self.generic_visit(fn)
+        own = [n for n in ast.walk(fn)]
+        params = {a.arg for a in fn.args.posonlyargs + fn.args.args + fn.args.kwonlyargs}
+        cands = {n.target.id for n in own if isinstance(n, ast.AugAssign) and isinstance(n.op, ast.Add) and isinstance(n.target, ast.Name) and not isinstance(n.value, (ast.Constant, ast.List))}
+        for name in sorted(cands - params):
+            ok = True
+            bound = 0
+            for n in own:
+                tgt, val = (None, None)
+                if isinstance(n, (ast.Assign, ast.AnnAssign)):
+                    tgt, val = _assign_target_value(n)
+                    if tgt is None and any(x.id == name for x in ast.walk(n) if isinstance(x, ast.Name) and isinstance(x.ctx, ast.Store)):
+                        ok = False
+                if tgt == name:
+                    bound += 1
+                    if not (isinstance(val, (ast.List, ast.ListComp)) or _is_call(val, "list", 0) or _is_call(val, "list", 1) or _is_call(val, "sorted", 1)):
+                        ok = False
+                if isinstance(n, (ast.For, ast.comprehension)) and any(isinstance(x, ast.Name) and x.id == name for x in ast.walk(n.target)):
+                    ok = False
+                if isinstance(n, (ast.Global, ast.Nonlocal)) and name in n.names:
+                    ok = False
+                if isinstance(n, ast.AugAssign) and isinstance(n.target, ast.Name) and n.target.id == name and not isinstance(n.op, ast.Add):
+                    ok = False
+            if not ok or not bound:
+                continue
+            for n in own:
+                for fld in ("body", "orelse", "finalbody"):
+                    sub = getattr(n, fld, None)
+                    if not isinstance(sub, list):
+                        continue
+                    for j, st in enumerate(sub):
+                        if isinstance(st, ast.AugAssign) and isinstance(st.op, ast.Add) and isinstance(st.target, ast.Name) and st.target.id == name:
+                            call = ast.Call(func=ast.Attribute(value=ast.Name(id=name, ctx=ast.Load()), attr="extend", ctx=ast.Load()), args=[st.value], keywords=[])
+                            sub[j] = ast.fix_missing_locations(ast.copy_location(ast.Expr(value=call), st))
+                            self.n += 1
+        return fn
+
+
 def desugar_module(tree: ast.Module) -> int:
     """rewrite in place; returns the number of loops rewritten"""
     sentinels = set()
@@ -421,13 +893,30 @@ def desugar_module(tree: ast.Module) -> int:
         if n is not None and _is_call(v, "object", 0):
             if sum(1 for x in ast.walk(tree) if isinstance(x, ast.Name) and x.id == n and isinstance(x.ctx, ast.Store)) == 1:
                 sentinels.add(n)
+    cc = _ConstComp(_module_constants(tree))
+    cc.visit(tree)
+    cc.n += _comp_key_lookups(tree)
     li = _ListIadd()
     li.visit(tree)
     mm = _MinMax()
     mm.visit(tree)
-    total = li.n + mm.n
+    cl = _Clamp()
+    cl.visit(tree)
+    total_search = 0
+    for fn_ in [n for n in ast.walk(tree) if isinstance(n, (ast.FunctionDef, ast.AsyncFunctionDef))]:
+        fn_.body, m_ = _search_loops(fn_.body, fn_)
+        total_search += m_
+    br = _BoolReturn()
+    br.visit(tree)
+    late = ("append-loops",)
+    le = _ListExtend()
+    le.visit(tree)
+    total = li.n + mm.n + br.n + le.n + cl.n + total_search + cc.n
     for fn in [n for n in ast.walk(tree) if isinstance(n, (ast.FunctionDef, ast.AsyncFunctionDef))]:
         f = _Fn(fn, sentinels)
         fn.body = f.block(fn.body)
         total += f.changed
+        fn.body, m_ = _append_loops(fn.body, fn)
+        total += m_
+        total += _key_loops(fn.body, fn, tree)
     return total
